@@ -183,7 +183,16 @@ func c08Configs(thorough bool) []*world.Config {
 	nl := world.UintCfg(2, urange(1, 5), 1, ref.FormatMarshaler, "none")
 	nl.MarshalNL = true
 	nl.Name = "json.Encoder-marshaler/" + nl.Name
-	return append(cs, nl)
+	cs = append(cs, nl)
+	// nodes larger than 4 KiB next to small ones, on a store that keeps the slices it is handed
+	big := strings.Repeat("0123456789abcdef", 320)
+	for _, f := range bothFormats {
+		r := world.IntCfg(2, []int{1, 2, 3, 4}, []interface{}{big, "s"}, "", f, "none")
+		r.RetainStore = true
+		r.Name = "retaining-store/5KiB-values/" + r.Name[len(r.Name)-12:]
+		cs = append(cs, r)
+	}
+	return cs
 }
 
 func C08(run *report.Run) {
@@ -277,7 +286,7 @@ func C13Configs(thorough bool) []*world.Config {
 
 func C16(run *report.Run) {
 	runSingle(run, "C16", C16Configs(run.Thorough()), func(*world.Config) explore.Monitor { return &c16Mon{} }, stdOps)
-	if run.Thorough() {
+	{
 		acc := &pairAcc{}
 		bigC16(run, acc)
 		acc.flush(run)
